@@ -27,6 +27,7 @@ import random
 import re
 import subprocess
 import sys
+import threading
 import zipfile
 from concurrent.futures import ThreadPoolExecutor
 from pathlib import Path
@@ -104,16 +105,25 @@ def _oblig(cls):
     return "MUST" in cls or "MUSTNOT" in cls
 
 
+_EV_LOCK = threading.Lock()
+
+
 def _enumerate(ctx, alpha, n):
     dump = ctx.scratch / f"gen-{alpha}-{n}.dump"
     cfg = f"SPECIFICATION Spec\nCONSTANTS Alphabet <- {alpha}\n MaxLen = {n}\n"
-    r = run_tlc("HtmlSkipGen", cfg, scratch=ctx.scratch, dump=dump, heap="8g", timeout=1500)
-    ctx.ev.tlc(f"HtmlSkipGen: all token strings over {alpha} len<={n} with their classification", r)
+    r = run_tlc("HtmlSkipGen", cfg, scratch=ctx.scratch / f"gen-{alpha}-{n}", dump=dump, heap="8g", timeout=1500,
+                workers=4)
+    _EV_LOCK.acquire()
+    try:
+        ctx.ev.tlc(f"HtmlSkipGen: all token strings over {alpha} len<={n} with their classification", r)
+    finally:
+        _EV_LOCK.release()
     path = dump if dump.exists() else Path(str(dump) + ".dump")
     out = {}
     for s in iter_dump(path):
         toks = tuple((t["k"], t["n"]) for t in s["g"])
-        out[toks] = (tuple(s["c"]), tuple(s["cx"]))       # classification in the HTML / XML dialect
+        out[toks] = (tuple(s["c"]), tuple(s["cx"]),       # classification in the HTML / XML dialect
+                     sorted(s["d"]), sorted(s["dx"]))     # tokens of the removed elements (HtmlSkip!DelX)
     if len(out) != r.distinct:
         raise MachineryError(f"dump has {len(out)} states, TLC reported {r.distinct}")
     path.unlink(missing_ok=True)
@@ -123,18 +133,25 @@ def _enumerate(ctx, alpha, n):
 # --------------------------------------------------------------------------- rendering (concretiser)
 ATTRS = {
     "img": ['', ' src="p.gif"', ' src="t.png" width="1" height="1" alt=""'],
-    "iframe": ['', ' src="https://example.org/f"'],
-    "object": ['', ' data="m.swf" type="application/x-shockwave-flash"'],
+    "iframe": ['', ' src="https://example.org/f"', ' src="f.html" id="content" name="content" href="x"'],
+    "object": ['', ' data="m.swf" type="application/x-shockwave-flash"',
+               ' data="o.html" type="text/html; charset=iso-8859-1" id="main"'],
     "applet": ['', ' code="A.class"'],
-    "embed": ['', ' src="m.swf"'],
-    "script": ['', ' type="text/javascript"'],
-    "style": ['', ' type="text/css"'],
+    "embed": ['', ' src="m.swf"', ' src="m.html" type="text/html;charset=iso-8859-1"'],
+    "script": ['', ' type="text/javascript"', ' src="legacy.js" charset="iso-8859-1"',
+               ' src="a.js" http-equiv="Content-Type" content="text/html; charset=utf-16"'],
+    "style": ['', ' type="text/css"', ' type="text/css" media="screen" title="main" id="title"'],
     "div": ['', ' class="c"'],
     "param": [' name="a" value="b"'],
     "input": [' type="hidden" name="n" value="v"', ''],
     "source": [' src="a.mp4"'],
 }
-DOC_HEAD = '<!DOCTYPE html><html><head><meta charset="utf-8"><title>doc</title>'
+DOC_HEADS = ['<!DOCTYPE html><html><head><meta charset="utf-8"><title>doc</title>',
+             # a UTF-8 page WITHOUT a meta charset, other meta / link elements on the same physical line
+             '<!DOCTYPE html><html lang="de"><head><meta name="viewport" content="width=device-width, initial-scale=1">'
+             '<link rel="stylesheet" href="s.css"><title>doc</title>']
+DOC_HEAD = DOC_HEADS[0]
+NONASCII = ["", "", "\u00e9", "\u00df\u6f22", "\U0001F600"]      # e-acute, sharp s + CJK, emoji: decoding errors become visible
 DOC_POST = "</html>"
 
 
@@ -147,16 +164,18 @@ def _compact(toks):
     return "".join(parts)
 
 
-def render(toks, rng, plain=False, inject=None):
-    """tokens -> (html text, {word: position}).  Positions are 1-based.  plain=True: shortest spelling.
-    inject = (j, literal): literal markup placed right after token j (frame glue such as </head>)."""
+def render(toks, rng, plain=False, inject=None, tail=""):
+    """tokens -> (list of pieces, {word: position}); "".join(pieces) is the markup, piece i-1 belongs to token i
+    (its separator + its spelling), so a token can be deleted by dropping its piece.  Positions are 1-based.
+    plain=True: shortest spelling.  inject = (j, literal): literal markup right after token j (frame glue such as
+    </head>).  tail: non-ASCII characters appended to every word."""
     salt = "".join(rng.choice("bcdfghjkmnpqrstvwxz") for _ in range(3))
     words, out = {}, []
     prev_word = False
     for i, (k, n) in enumerate(toks, start=1):
         word = None
         if k in "TACD":
-            word = {"T": "w", "A": "w", "C": "h", "D": "d"}[k] + str(i) + "y" + salt
+            word = {"T": "w", "A": "w", "C": "h", "D": "d"}[k] + str(i) + "y" + salt + tail
             words[word] = i
         if k == "T":
             s = word
@@ -174,29 +193,49 @@ def render(toks, rng, plain=False, inject=None):
                 a = "" if plain else rng.choice(ATTRS.get(n, ['']))
                 s = f"<{name}{a}>" if k == "S" else f"<{name}{a}{rng.choice(['/', ' /']) if not plain else '/'}>"
         is_text = k in "TA"
+        sep = ""
         if out:
             if prev_word and is_text:
-                out.append(" ")
+                sep = " "
             elif not plain:
-                out.append(rng.choice(["", "", " ", "\n"]))
-        out.append(s)
-        if inject and inject[0] == i:
-            out.append(inject[1])
+                sep = rng.choice(["", "", " ", "\n"])
+        out.append(sep + s + (inject[1] if inject and inject[0] == i else ""))
         prev_word = is_text
-    return "".join(out), words
+    return out, words
 
 
-def project(main, others, words):
-    """Projection of an observation -> (seen, seq).
-    seen: sorted positions whose unique word occurs in ANY text-bearing accessor (main text, unit texts, table cells,
-          heading / link lists, title);  seq: positions of the words found in the MAIN text, in order of occurrence.
+def without(pieces, deleted, toks):
+    """The same markup with the tokens at the (1-based) positions `deleted` dropped; two text tokens that become
+    neighbours keep a blank between them."""
+    out, prev_text = [], False
+    for i, pc in enumerate(pieces, start=1):
+        if i in deleted:
+            continue
+        is_text = toks[i - 1][0] in "TA"
+        out.append((" " if prev_text and is_text and not pc[:1].isspace() else "") + pc)
+        prev_text = is_text
+    return "".join(out)
+
+
+def project(obs, words):
+    """Projection of an observation -> (seen, body, seq).
+    obs = {"main": main text, "cells": [table cell texts], "others": [title, heading / link lists, unit texts ...]}
+    seen: positions whose unique word occurs in ANY text-bearing accessor;  body: in the body-text accessors (main
+    text, table cells);  seq: positions of the words found in the MAIN text, in order of occurrence.
     Substring search: inline tags between two words are dropped without leaving whitespace.
-    (word = letter + position + "y" + salt: no word is a substring of another)"""
-    main = main or ""
-    blob = main + "\n" + "\n".join(others)
+    (word = letter + position + "y" + salt [+ non-ASCII tail]: no word is a substring of another)"""
+    main = obs["main"] or ""
+    bodytxt = main + "\n" + "\n".join(obs["cells"])
+    blob = bodytxt + "\n" + "\n".join(obs["others"])
     seen = sorted(p for w, p in words.items() if w in blob)
+    body = sorted(p for w, p in words.items() if w in bodytxt)
     seq = [p for _, p in sorted((main.find(w), p) for w, p in words.items() if w in main)]
-    return seen, seq
+    return seen, body, seq
+
+
+def _norm(obs):
+    """Body text modulo white space (for the metamorphic comparison)."""
+    return ("".join((obs["main"] or "").split()), ["".join(c.split()) for c in obs["cells"] if c.strip()])
 
 
 def _flat(x):
@@ -210,12 +249,16 @@ def _flat(x):
     return []
 
 
+def _obs_text(text):
+    return {"main": text, "cells": [], "others": []}
+
+
 def _texts_html(r):
-    """(main text, every other text-bearing accessor) of an HtmlContent."""
-    others = [r.content or "", r.metadata.title or ""] + _flat(r.tables) + _flat(r.headings) + _flat(r.links)
+    """Text-bearing accessors of an HtmlContent."""
+    others = [r.content or "", r.metadata.title or ""] + _flat(r.headings) + _flat(r.links)
     others += [u.get_text() for u in r.iterate_units()]
-    others += _flat([t.get_table() for t in r.iterate_tables()])
-    return r.get_full_text(), others
+    cells = _flat(r.tables) + _flat([t.get_table() for t in r.iterate_tables()])
+    return {"main": r.get_full_text(), "cells": cells, "others": others}
 
 
 # --------------------------------------------------------------------------- wrappers
@@ -367,9 +410,11 @@ def _worker(inp, outp):
     CTX_NAMES = ["plain"] * 4 + ["sibling"] * 2 + ["td", "th", "li", "h2", "a"]
 
     def frame(toks, w="html"):
-        """-> (full token list incl. the frame's own tokens, html text, words, eof).
+        """-> dict(full, pieces, words, eof, pre, post, off): "pre + join(pieces) + post" is the document, `full` the
+        token string it spells (frame tokens included), `off` the number of frame tokens in front of the enumerated ones.
         bare: a leading text word puts the fragment in body context, the string is flush with end of input;
-        doc : <html><head>..</head><body> toks </body></html>, the <body> tags are tokens of the string;
+        doc : <html><head>..</head><body> toks </body></html>, the <body> tags are tokens of the string; the head
+              either declares utf-8 or has no meta charset at all (other meta / link elements on the same line);
               EPUB only, every other time: the head carries <script src=".."/> (an empty element in XHTML).
         A context frame (table cell, list item, heading, link, closed inline sibling) is drawn around the string."""
         bare = rng.random() < 0.5 or toks[-1:] == [["A", ""]]
@@ -378,26 +423,34 @@ def _worker(inp, outp):
             bare, ctx = False, "plain"
         if toks[-1:] == [["A", ""]]:                   # the dangling '&' must stay flush with the end of input
             ctx = "plain"
+        tail = "" if w == "mhtml_raw" else rng.choice(NONASCII)
         pre, post = CONTEXTS[ctx]
-        toks = pre + toks + post
         if bare:
-            full = [["T", ""]] + toks
-            html, words = render(full, rng)
-            return full, html, words, ctx == "plain"
+            full = [["T", ""]] + pre + toks + post
+            pieces, words = render(full, rng, tail=tail)
+            return dict(full=full, pieces=pieces, words=words, eof=ctx == "plain", pre="", post="", off=1 + len(pre))
+        head = rng.choice(DOC_HEADS)
         if w == "epub" and rng.random() < 0.5:
-            full = [["X", "script"], ["S", "body"]] + toks + [["E", "body"]]
-            html, words = render(full, rng, inject=(1, "</head>"))
-            return full, DOC_HEAD + html + DOC_POST, words, False
-        full = [["S", "body"]] + toks + [["E", "body"]]
-        html, words = render(full, rng)
-        return full, DOC_HEAD + "</head>" + html + DOC_POST, words, False
+            full = [["X", "script"], ["S", "body"]] + pre + toks + post + [["E", "body"]]
+            pieces, words = render(full, rng, inject=(1, "</head>"), tail=tail)
+            return dict(full=full, pieces=pieces, words=words, eof=False, pre=head, post=DOC_POST, off=2 + len(pre))
+        full = [["S", "body"]] + pre + toks + post + [["E", "body"]]
+        pieces, words = render(full, rng, tail=tail)
+        return dict(full=full, pieces=pieces, words=words, eof=False, pre=head + "</head>", post=DOC_POST,
+                    off=1 + len(pre))
 
-    def add(w, full, eof, html, words, obs):
-        """obs = (main text, other accessors) or an "EXC-..." string."""
-        main, others = (obs, []) if isinstance(obs, str) else obs
-        seen, seq = project(main, others, words)
-        events.append({"a": "Obs", "w": w, "eof": eof, "toks": [{"k": k, "n": n} for k, n in full],
-                       "seen": seen, "seq": seq, "html": html, "base": cur[0]})
+    def add(w, f, html, obs, obs2=None, deleted=()):
+        """obs / obs2: accessor dicts (or "EXC-..." strings) of the document and of the document with the tokens
+        `deleted` dropped."""
+        if isinstance(obs, str):
+            obs = _obs_text(obs)
+        seen, body, seq = project(obs, f["words"])
+        meta = obs2 not in (None, False)
+        if isinstance(obs2, str):
+            obs2 = _obs_text(obs2)
+        events.append({"a": "Obs", "w": w, "eof": f["eof"], "toks": [{"k": k, "n": n} for k, n in f["full"]],
+                       "seen": seen, "body": body, "seq": seq, "meta": meta, "del": sorted(deleted),
+                       "same": bool(meta and _norm(obs) == _norm(obs2)), "html": html, "base": cur[0]})
 
     def guarded(fn):
         try:
@@ -405,66 +458,104 @@ def _worker(inp, outp):
         except Exception as e:          # an extractor must not fail on these inputs: empty observation
             return "EXC-" + type(e).__name__
 
+    def both(f, dele):
+        """markup of the framed string, markup with the removed elements' tokens deleted, shifted positions"""
+        deleted = {p + f["off"] for p in dele}
+        html = f["pre"] + "".join(f["pieces"]) + f["post"]
+        # nothing to delete: the second extraction would be the first one again (meta = FALSE)
+        html2 = f["pre"] + without(f["pieces"], deleted, f["full"]) + f["post"] if deleted else None
+        return html, html2, deleted
+
+    def run_html(h):
+        return guarded(lambda: _texts_html(next(read_html(io.BytesIO(h.encode("utf-8")), path="x.html"))))
+
+    def run_mhtml(h, enc):
+        blob = _mhtml(h.encode("utf-8"), enc, rng)
+        return guarded(lambda: _texts_html(next(read_mhtml(io.BytesIO(blob), path="x.mhtml"))))
+
     cur = [None]
     for case in job["cases"]:
         toks = cur[0] = case["toks"]
         sel = case["w"]
         if "html" in sel:
-            full, html, words, eof = frame(toks)
-            add("html", full, eof, html, words,
-                guarded(lambda: _texts_html(next(read_html(io.BytesIO(html.encode("utf-8")), path="x.html")))))
+            f = frame(toks)
+            html, html2, deleted = both(f, case["d"])
+            add("html", f, html, run_html(html), html2 and run_html(html2), deleted)
         if "msg" in sel:
-            full, html, words, eof = frame(toks, "msg")
-            add("msg", full, eof, html, words, guarded(lambda: _html_to_text(html)))
+            f = frame(toks, "msg")
+            html, html2, deleted = both(f, case["d"])
+            add("msg", f, html, guarded(lambda: _html_to_text(html)), html2 and guarded(lambda: _html_to_text(html2)),
+                deleted)
         if "mhtml_b64" in sel:                         # first MHTML observation: base64, sometimes an unencoded part
             enc, w = ("base64", "mhtml_b64") if rng.random() < 0.75 else ("identity", "mhtml_raw")
-            full, html, words, eof = frame(toks)
-            blob = _mhtml(html.encode("utf-8"), enc, rng)
-            add(w, full, eof, html, words,
-                guarded(lambda: _texts_html(next(read_mhtml(io.BytesIO(blob), path="x.mhtml")))))
+            f = frame(toks, w)
+            html, html2, deleted = both(f, case["d"])
+            add(w, f, html, run_mhtml(html, enc), html2 and run_mhtml(html2, enc), deleted)
         if "mhtml_qp" in sel:
-            full, html, words, eof = frame(toks)
-            blob = _mhtml(html.encode("utf-8"), "quoted-printable", rng)
-            add("mhtml_qp", full, eof, html, words,
-                guarded(lambda: _texts_html(next(read_mhtml(io.BytesIO(blob), path="x.mhtml")))))
+            f = frame(toks)
+            html, html2, deleted = both(f, case["d"])
+            add("mhtml_qp", f, html, run_mhtml(html, "quoted-printable"),
+                html2 and run_mhtml(html2, "quoted-printable"), deleted)
         if "epub" in sel:
-            full, html, words, eof = frame(toks, "epub")
-            epub_q.append((full, eof, html, words, toks))
+            f = frame(toks, "epub")
+            html, html2, deleted = both(f, case["dx"])
+            epub_q.append((f, html, html2, deleted, toks))
         if "eml" in sel:
-            full, html, words, eof = frame(toks)
+            f = frame(toks)
+            html = f["pre"] + "".join(f["pieces"]) + f["post"]
             blob = _eml(html, rng.choice(["base64", "quoted-printable"]))
-            add("eml", full, eof, html, words,
+            add("eml", f, html,
                 guarded(lambda: next(read_eml_format_mail(io.BytesIO(blob), path="x.eml")).get_full_text()))
-        if "msgfile" in sel and msgfx is not None and msgfx.ok:
+        for w in ("msgfile", "msgfrag"):
+            if w not in sel or msgfx is None or not msgfx.ok:
+                continue
             bare = rng.random() < 0.5 or toks[-1:] == [["A", ""]]
-            full = [["S", "body"]] + toks + ([] if bare else [["E", "body"]])
-            body, words = render(full, rng, plain=True)
-            html = "<html>" + body + ("" if bare else DOC_POST)
-            if len(html) > msgfx.capacity():
+            tail = rng.choice(NONASCII)
+            if w == "msgfile":                         # a full document as the body of a real .msg file
+                full = [["S", "body"]] + toks + ([] if bare else [["E", "body"]])
+                pieces, words = render(full, rng, plain=True, tail=tail)
+                html = "<html>" + "".join(pieces) + ("" if bare else DOC_POST)
+            else:                                      # an HTML FRAGMENT: no html / body wrapper, varying first element
+                lead = rng.choice([[["T", ""]], [["S", "b"], ["T", ""], ["E", "b"]], [["S", "a"], ["T", ""], ["E", "a"]],
+                                   [["C", ""], ["T", ""]]])
+                if toks[0] in (["S", "script"], ["S", "style"], ["T", ""], ["A", ""]) and rng.random() < 0.6:
+                    lead = []                          # the fragment starts with <style> / <script> / text itself
+                full = lead + toks
+                pieces, words = render(full, rng, plain=True, tail=tail)
+                html = "".join(pieces)
+            f = dict(full=full, pieces=pieces, words=words, eof=bare or w == "msgfrag")
+            if len(html.encode("utf-16-le")) // 2 > msgfx.capacity():
                 msg_skipped += 1
+                continue
+            res = guarded(lambda: next(read_msg_format_mail(io.BytesIO(msgfx.build(html)), path="x.msg")))
+            if isinstance(res, str) or html not in ((res.body_html or "").rstrip("\0 "), (res.body_plain or "").rstrip("\0 ")):
+                msg_skipped += 1                       # the rewritten fixture did not carry the body: harness limit
             else:
-                res = guarded(lambda: next(read_msg_format_mail(io.BytesIO(msgfx.build(html)), path="x.msg")))
-                if isinstance(res, str) or res.body_html.rstrip("\0 ") != html:
-                    msg_skipped += 1            # the rewritten fixture did not carry the body: harness limit
-                else:
-                    add("msgfile", full, bare, html, words, res.body_plain)
+                add(w, f, html, res.body_plain)
     # EPUB: many chapters per book; a chapter's text-bearing accessors: text, title, tables (cell text lives only there)
-    for k in range(0, len(epub_q), 100):
-        batch = epub_q[k:k + 100]
-        blob = _epub([b[2].encode("utf-8") for b in batch])
+    for k in range(0, len(epub_q), 60):
+        batch = epub_q[k:k + 60]
+        docs, slot = [], []
+        for f, html, html2, deleted, base in batch:
+            slot.append((len(docs), len(docs) + 1 if html2 else None))
+            docs += [html] + ([html2] if html2 else [])
+        blob = _epub([h.encode("utf-8") for h in docs])
         res = guarded(lambda: next(read_epub(io.BytesIO(blob), path="x.epub")))
         by_href = {}
         if not isinstance(res, str):
             units = {u.href: u for u in res.iterate_units()}
             for c in res.chapters:
                 u = units.get(c.href)
-                others = [c.title or ""] + _flat(c.tables) + _flat([t.get_table() for t in c.get_tables()])
+                cells = _flat(c.tables) + _flat([t.get_table() for t in c.get_tables()])
+                others = [c.title or ""]
                 if u is not None:
-                    others += [u.get_text()] + _flat([t.get_table() for t in u.get_tables()])
-                by_href[c.href] = (c.text, others)
-        for i, (full, eof, html, words, base) in enumerate(batch):
+                    others += [u.get_text()]
+                    cells += _flat([t.get_table() for t in u.get_tables()])
+                by_href[c.href] = {"main": c.text, "cells": cells, "others": others}
+        for (f, html, html2, deleted, base), (i1, i2) in zip(batch, slot):
             cur[0] = base
-            add("epub", full, eof, html, words, by_href.get(f"OEBPS/c{i}.xhtml", "MISSING-CHAPTER"))
+            add("epub", f, html, by_href.get(f"OEBPS/c{i1}.xhtml", "MISSING-CHAPTER"),
+                by_href.get(f"OEBPS/c{i2}.xhtml", "MISSING-CHAPTER") if i2 is not None else None, deleted)
     Path(outp).write_text(json.dumps({"events": events, "msg_skipped": msg_skipped,
                                       "msgfile_ok": bool(msgfx and msgfx.ok)}))
 
@@ -477,10 +568,8 @@ EX_CFG = "SPECIFICATION ExplainSpec\n"
 
 
 def _strip(t):
-    return {"id": t["id"], "ev": [{k: e[k] for k in ("a", "w", "eof", "toks", "seen", "seq")} for e in t["ev"]]}
-
-
-KNOWN_HITS = set()      # (trace index, event index) that TLC places in the domain of KF-C17-01 with the as-built observation
+    return {"id": t["id"], "ev": [{k: e[k] for k in ("a", "w", "eof", "toks", "seen", "body", "seq", "meta", "del", "same")}
+                                  for e in t["ev"]]}
 
 
 def validate_events(ctx, traces, parallel=12):
@@ -497,7 +586,6 @@ def validate_events(ctx, traces, parallel=12):
         f.unlink(missing_ok=True)
         return idx, r
 
-    KNOWN_HITS.clear()
     accepted = [False] * len(traces)
     distinct = generated = 0
     wall = 0.0
@@ -520,8 +608,6 @@ def validate_events(ctx, traces, parallel=12):
                     raise MachineryError("malformed observation (harness fault): " + json.dumps(e)[:1500])
                 for tid, l, cls in _BAD.findall(r.output):
                     bad[(idx[int(tid) - 1], int(l) - 1)] = re.findall(r'"([A-Z-]+)"', cls)
-                for tid, l in re.findall(r'<<\s*"KF1",\s*(\d+),\s*(\d+)\s*>>', r.output):
-                    KNOWN_HITS.add((idx[int(tid) - 1], int(l) - 1))
                 distinct += r.distinct
                 generated += r.generated
         for i in rej:
@@ -580,19 +666,15 @@ def _report(ctx, traces, accepted, bad):
     items = []
     for (ti, ei), cls in bad.items():
         e = traces[ti]["ev"][ei]
-        if (ti, ei) in KNOWN_HITS and v.open_finding("KF-C17-01"):
-            v.known("KF-C17-01", "EPUB table cell left open at end of input is dropped with its visible text: "
-                    + _compact([(t["k"], t["n"]) for t in e["toks"]]), {"html": e["html"]})
-            continue
         items.append((len(e["toks"]), e["w"], _compact([(t["k"], t["n"]) for t in e["toks"]]), e, cls))
     items.sort(key=lambda x: (x[0], x[2], x[1], x[3]["html"]))
     tally = {}
     for ln, w, comp, e, cls in items:
-        sn = set(e["seen"])
+        sn, bd = set(e["seen"]), set(e["body"])
         ms = [q for q in e["seq"] if cls[q - 1] == "MUST"]
-        kind = ("lost " if any(c == "MUST" and i + 1 not in sn for i, c in enumerate(cls)) else "") + \
+        kind = ("lost/moved " if any(c == "MUST" and i + 1 not in bd for i, c in enumerate(cls)) else "") + \
                ("leaked " if any(c == "MUSTNOT" and i + 1 in sn for i, c in enumerate(cls)) else "") + \
-               ("reordered " if ms != sorted(ms) else "")
+               ("reordered " if ms != sorted(ms) else "") + ("differs-from-deleted " if e["meta"] and not e["same"] else "")
         ctxn = next((t["n"] for t in e["toks"] if t["n"] in ("td", "th", "li", "h2", "a", "b")), "plain")
         tally[(w, ctxn, kind.strip())] = tally.get((w, ctxn, kind.strip()), 0) + 1
     if items:
@@ -602,7 +684,7 @@ def _report(ctx, traces, accepted, bad):
     per, chosen = set(), {True: [], False: []}
     for ln, w, comp, e, cls in items:
         sn = set(e["seen"])
-        is_lost = any(c == "MUST" and i + 1 not in sn for i, c in enumerate(cls))
+        is_lost = any(c == "MUST" and i + 1 not in set(e["body"]) for i, c in enumerate(cls))
         sig = (is_lost, tuple(sorted({t["k"] + t["n"] for t in e["toks"] if t["k"] != "T"})), w)
         if sig in per or len(chosen[is_lost]) >= 20 or sum(1 for q in per if q[:2] == sig[:2]) >= 2:
             continue
@@ -619,12 +701,18 @@ def _report(ctx, traces, accepted, bad):
             what.append(f"visible text lost (positions {lost})")
         if leaked:
             what.append(f"removed content extracted (positions {leaked})")
+        moved = [i + 1 for i, c in enumerate(cls) if c == "MUST" and i + 1 in seen and i + 1 not in set(e["body"])]
+        if moved:
+            what.append(f"visible text moved out of the body text into another accessor (positions {moved})")
+        if e["meta"] and not e["same"] and not what:
+            what.append(f"extraction differs from the extraction with the removed elements {e['del']} deleted")
         must_seq = [q for q in e["seq"] if cls[q - 1] == "MUST"]
         if must_seq != sorted(must_seq):
             what.append(f"visible text rearranged (order in the main text {must_seq})")
         v.violation(what=f"{'; '.join(what) or 'observation rejected'} via {w}: {comp}   "
                          f"[{len(items)} rejected observations in this run]",
-                    case={"wrapper": w, "eof": e["eof"], "toks": e["toks"], "base": e["base"], "html": e["html"]},
+                    case={"wrapper": w, "eof": e["eof"], "toks": e["toks"], "base": e["base"], "html": e["html"],
+                          "d": e.get("d0", []), "dx": e.get("dx0", [])},
                     expected=cls, observed={"seen_positions": e["seen"], "order_in_main_text": e["seq"]}, where=WHERE)
 
 
@@ -640,7 +728,7 @@ def _replay(ctx):
     """./check C17 --replay <violation file>: validate exactly that document again."""
     case = json.loads(Path(ctx.replay).read_text())["case"]
     toks = case["base"]                                   # the enumerated string; the frame adds its own tokens
-    cases = [{"toks": toks, "w": [case["wrapper"]]} for _ in range(60)]
+    cases = [{"toks": toks, "w": [case["wrapper"]], "d": case.get("d", []), "dx": case.get("dx", [])} for _ in range(60)]
     events, _, _ = _run_workers(ctx, cases, case["wrapper"] == "msgfile")
     traces = _build_traces(events)
     accepted, bad, d, g, wall = validate_events(ctx, traces)
@@ -661,15 +749,15 @@ def run(ctx):
     # ---- 1. theorem + sensitivity
     if ctx.thorough:
         theorem = [("AlphaQ1", 5), ("AlphaQ2", 5), ("AlphaQ3", 7), ("AlphaQ4", 6), ("AlphaQ5B", 6), ("AlphaQ6", 5),
-                   ("AlphaQ7", 6), ("AlphaT", 5), ("AlphaT2", 5)]
+                   ("AlphaQ7", 6), ("AlphaQ8", 6), ("AlphaT3", 5), ("AlphaT", 5), ("AlphaT2", 5)]
         gens = [("AlphaT", 4, 0), ("AlphaT2", 4, 0), ("AlphaQ3", 6, 0), ("AlphaQ4", 5, 0), ("AlphaQ5", 5, 0),
-                ("AlphaQ6", 4, 0), ("AlphaQ7", 6, 0), ("AlphaQ1", 5, 5), ("AlphaQ2", 5, 5)]
+                ("AlphaQ6", 4, 0), ("AlphaQ7", 6, 0), ("AlphaQ8", 5, 0), ("AlphaT3", 4, 0), ("AlphaQ1", 5, 5), ("AlphaQ2", 5, 5)]
         sample5, n_eml, n_msgfile = 40000, 5000, 1200
     else:
         theorem = [("AlphaQ1", 4), ("AlphaQ2", 4), ("AlphaQ4", 5), ("AlphaQ5B", 5), ("AlphaQ6", 4),
-                   ("AlphaQ7", 5)]
+                   ("AlphaQ7", 5), ("AlphaQ8", 5)]
         gens = [("AlphaQ1", 4, 0), ("AlphaQ2", 4, 0), ("AlphaQ4", 5, 0), ("AlphaQ5", 4, 0), ("AlphaQ6", 3, 0),
-                ("AlphaQ7", 5, 0)]
+                ("AlphaQ7", 5, 0), ("AlphaQ8", 5, 0)]
         sample5, n_eml, n_msgfile = 0, 1200, 160
     _theorems(ctx, theorem)
     ctx.log(f"theorem + sensitivity runs done ({_t()}s)")
@@ -677,8 +765,9 @@ def run(ctx):
     # ---- 2. enumerate the token strings (with TLC's classification, used for evidence only)
     rng = random.Random(ctx.seed)
     strings = {}
-    for alpha, n, sampled_len in gens:
-        got = _enumerate(ctx, alpha, n)
+    with ThreadPoolExecutor(4) as ex:                      # the enumerations run side by side (private scratch dirs)
+        enumerated = list(ex.map(lambda g: _enumerate(ctx, g[0], g[1]), gens))
+    for (alpha, n, sampled_len), got in zip(gens, enumerated):
         if sampled_len:                                    # all strings up to 4, a seeded sample of the length-5 strings
             k5 = sorted(k for k, c in got.items() if len(k) == 5 and k not in strings and _oblig(c[0] + c[1]))
             for k in rng.sample(k5, min(sample5, len(k5))):
@@ -689,7 +778,7 @@ def run(ctx):
     # a string without a MUST / MUSTNOT word carries no obligation: nothing to observe
     n_all = len(strings)
     keys = sorted(k for k, c in strings.items() if _oblig(c[0] + c[1]))
-    nontriv = [k for k in keys if any("MUST" in c and "MUSTNOT" in c for c in strings[k])]
+    nontriv = [k for k in keys if any("MUST" in c and "MUSTNOT" in c for c in strings[k][:2])]
     ctx.log(f"{n_all} token strings enumerated, {len(keys)} with a MUST/MUSTNOT word are replayed, "
             f"{len(nontriv)} have both ({_t()}s)")
     for k in nontriv:
@@ -699,6 +788,10 @@ def run(ctx):
     eml_set = set(rng.sample(pool, min(n_eml, len(pool))))
     short = [k for k in pool if len(k) <= 6]
     msg_set = set(rng.sample(short, min(n_msgfile, len(short))))
+    # fragments for the real .msg path: strings with a <script> / <style> / other start tag, biased to non-trivial ones
+    fragpool = [k for k in keys if len(k) <= 6 and _oblig(strings[k][0]) and any(t[0] == "S" for t in k)]
+    fragpool = [k for k in fragpool if "MUSTNOT" in strings[k][0]] or fragpool
+    frag_set = set(rng.sample(fragpool, min(n_msgfile, len(fragpool))))
     cases = []
     for k in keys:
         w = []
@@ -708,9 +801,11 @@ def run(ctx):
                 w.append("eml")
             if k in msg_set:
                 w.append("msgfile")
+            if k in frag_set:
+                w.append("msgfrag")
         if _oblig(strings[k][1]):                          # obligations in the XML dialect (EPUB chapters)
             w.append("epub")
-        cases.append({"toks": [list(t) for t in k], "w": w})
+        cases.append({"toks": [list(t) for t in k], "w": w, "d": strings[k][2], "dx": strings[k][3]})
 
     # ---- 3. replay through the library, 4. validate by TLC
     events, msg_skipped, msg_ok = _run_workers(ctx, cases, True)
